@@ -24,6 +24,7 @@ from engine.common import setup_paths
 from ref import c12_readers as rd
 
 PROPERTY = 'C12'
+SECOND_PASS = ('run_single', 'run_sequences', 'run_cnfs', 'run_families', 'run_catalogue')
 LEVEL = 'exploration'
 EXHAUSTIVE = True
 ENGINE = 'scope+strict-readers'
@@ -881,8 +882,13 @@ def shards(tier, seed):
     return out
 
 
+_REVERSE = [False]
+
+
 def _run(recipes, renders, R, sample_every=997):
     n = 0
+    if _REVERSE[0]:
+        recipes = reversed(list(recipes))
     for rec in recipes:
         def count(nontrivial, rec=rec):
             R.case(nontrivial=nontrivial)
@@ -897,6 +903,7 @@ def _run(recipes, renders, R, sample_every=997):
 
 
 def run_single(args, R):
+    _REVERSE[0] = bool(args.get('reverse'))
     recs = ({'cls': 'OPB', 'tag': 'opb-scope',
              'steps': [['nv', 3], ['con', t, r, d]]}
             for i, (t, r, d) in enumerate(single_constraints())
@@ -905,12 +912,14 @@ def run_single(args, R):
 
 
 def run_sequences(args, R):
+    _REVERSE[0] = bool(args.get('reverse'))
     recs = (rec for i, rec in enumerate(opb_sequences(args['tier']))
             if i % args['K'] == args['k'])
     _run(recs, renderings(full=False), R)
 
 
 def run_cnfs(args, R):
+    _REVERSE[0] = bool(args.get('reverse'))
     def gen():
         for i, (nv, clauses) in enumerate(cnf_scope(args['tier'])):
             if i % args['K'] != args['k']:
@@ -921,6 +930,7 @@ def run_cnfs(args, R):
 
 
 def run_families(args, R):
+    _REVERSE[0] = bool(args.get('reverse'))
     recs = []
     for i, name in enumerate(FAMILIES):
         recs.append({'cls': 'CNF', 'fam': name, 'tag': 'family'})
@@ -932,6 +942,7 @@ def run_families(args, R):
 
 
 def run_catalogue(args, R):
+    _REVERSE[0] = bool(args.get('reverse'))
     what = args['what']
     if what == 'named':
         recs = named_recipes()
